@@ -170,6 +170,9 @@ def lower_socket(trace, enc_of=None, blockers=()):
                 out.append({"e": "retsend", "t": t, "id": ev["id"], "res": ev["res"]})
             elif m == "close":
                 out.append({"e": "retclose", "t": t})
+        elif e == "cancel":
+            if kinds.get(ev["id"]) == "send":
+                out.append({"e": "cancelsend", "t": t, "id": ev["id"]})
         elif e == "conn_attempt":
             out.append({"e": "attempt", "t": t, "c": ev["c"]})
         elif e == "conn_ok":
